@@ -1,7 +1,9 @@
 """C16 — token positions are faithful to the source text."""
 ID = "C16"
 LEVEL = "proof"
-FUNCTIONS = []
+FUNCTIONS = ["codelimit.common.source_utils:get_newline_indices", "codelimit.common.source_utils:filter_tokens",
+             "codelimit.common.lexer_utils:lex"]
+BOUNDED_SKIP = ["codelimit.common.lexer_utils:lex"]
 TRUSTED = ["Pygments lexer contract LC: get_tokens_unprocessed yields (offset, type, text) with text == code[offset:offset+len(text)], "
            "offsets non-decreasing and tokens not overlapping (validated at run time on every text of the bounded check)"]
 ASSUMPTIONS = []
